@@ -87,5 +87,5 @@ Qed.
 
 (* … and an accepted sparse model that MDP::Model(const M&) rejects (row mass off by 1.8e-6) *)
 Lemma sparse_to_dense_rejects_lemma :
-  exists m, run true Sparse sparse_drop_ops = Some m /\ convert true Dense m = (None, Throw).
+  exists m, run false Sparse sparse_drop_ops = Some m /\ convert false Dense m = (None, Throw).
 Proof. eexists. split; vm_compute; reflexivity. Qed.
